@@ -425,13 +425,16 @@ pub fn iter_finish_case(seed: u64, idx: u64) -> CaseOut {
     let replay = format!("i{seed}:{idx}");
     let fin = rng.below(5);
     let fin_name = ["AndLeave", "WithMessage", "AndClear", "Abandon", "AbandonWithMessage"][fin as usize];
-    let walk = rng.below(4);
-    let walk_name = ["next", "next_back", "rev", "alternating ends"][walk as usize];
+    let walk = rng.below(8);
     let n = rng.range(0, 12);
     let declared = if rng.chance(1, 3) { n + rng.range(1, 5) } else { n };
     let in_multi = rng.chance(1, 2);
     // a third of the loops finish the bar by hand half-way
     let manual: Option<(u64, u64)> = (n >= 1 && rng.chance(1, 3)).then(|| (rng.range(0, n - 1), rng.below(5)));
+    // walks 4-7 consume the adaptor by internal iteration (for_each, count, last, fold): an adaptor that overrides
+    // fold()/try_fold() must still finish the bar although the caller keeps a second handle (round 11)
+    let walk = if manual.is_some() { walk % 4 } else { walk };
+    let walk_name = ["next", "next_back", "rev", "alternating ends", "for_each", "count", "last", "fold"][walk as usize];
     let w = J::obj().with("with_finish", fin_name).with("walk", walk_name).with("items", n).with("declared_length", declared).with("in_multi", in_multi).with(
         "finished_by_hand",
         manual.map(|(k, m)| format!("{} after {k} items", ["finish", "finish_with_message", "abandon", "abandon_with_message", "finish_and_clear"][m as usize])),
@@ -499,6 +502,13 @@ pub fn iter_finish_case(seed: u64, idx: u64) -> CaseOut {
                     seen += 1;
                 }
             }
+            4 => it.for_each(|_| seen += 1),
+            5 => seen = it.count() as u64,
+            6 => {
+                seen = n;
+                let _ = it.last();
+            }
+            7 => seen = it.fold(0u64, |a, _| a + 1),
             _ => {
                 let mut front = true;
                 loop {
